@@ -454,7 +454,7 @@ func (x *runner) one(scen string, st *mc.Stats, lim limiter, b []byte, via, desc
 // oneRep is one for an input that may be described by a recipe (rep != nil: large input; it is journalled, keyed
 // and reported by its recipe instead of its bytes).
 func (x *runner) oneRep(scen string, st *mc.Stats, lim limiter, b []byte, via, desc string, rep *RepSpec) bool {
-	if via == "load" && atomic.LoadInt64(&hangs) >= maxHangs {
+	if strings.HasPrefix(via, "load") && atomic.LoadInt64(&hangs) >= maxHangs {
 		st.Class("load skipped: too many hung executions already")
 		return false
 	}
@@ -947,6 +947,7 @@ func Run(r *mc.Run) {
 	x.controlTailsScenario(r)
 	x.streamScenario(r)
 	x.tarHeaderScenario(r)
+	x.doubleDefectScenario(r)
 	removeScratchDirs()
 
 	// ---- large inputs: long runs of one byte and very many members (a reader that does work per byte or per
